@@ -13,7 +13,7 @@ LEVEL = "exploration"
 ENGINE = "simloop"
 RULE = (
     "case = (generated workflow w: 2-6 nodes, chains/fan-in/fan-out/diamonds, splits, combines, nested workflow, "
-    "duplicate-identity nodes) x (seeded schedule: pool size 1-8, worker step bursts, controller-line interleaving, "
+    "duplicate-identity nodes) x (seeded schedule: pool size 1-8, max_concurrent unlimited or 1-3, worker step bursts, controller-line interleaving, "
     "delayed future delivery, timers firing early); reference = same workflow under the sequential debug worker. "
     "Non-trivial = the workflow has >= 3 jobs and the schedule interleaved workers with the polling loop (>= 2 "
     "worker processes alive at once or a job observed 'running'); distinct = distinct SHA-256 of the event/step order."
@@ -75,14 +75,15 @@ def run_case(case, ch, workdir):
         if n != 1:
             violation(res, "exec-count", sig, f"[debug worker] {k[:120]} executed {n} times")
     prof = wc.gen_profile(ch)
-    env, status, val = wc.sim_run(ch, workdir, spec, prof, salt=case["id"])
+    mc = ch.pick([None, None, None, 1, 2, 3], "max_concurrent")
+    env, status, val = wc.sim_run(ch, workdir, spec, prof, salt=case["id"], max_concurrent=mc)
     try:
         sim = env.sim
         enters, order, prod = wc.exec_summary(sim.events)
         res["steps"] = sim.steps
         res["sim_s"] = sim.now - 1_700_000_000.0
         res["digest"] = sim.digest()
-        res["sample"].update({"n_procs": prof["n_procs"], "fine": prof["fine"], "status": status})
+        res["sample"].update({"n_procs": prof["n_procs"], "fine": prof["fine"], "max_concurrent": mc, "status": status})
         mx = wc.overlap_stats(order)
         if mx > 1:
             sim.probe("bodies_overlapped")
